@@ -775,3 +775,96 @@ Proof.
   destruct (sub_publish_account b U) as [A [B [C D]]].
   destruct (IH (sub_publish b) C (B L)) as [E F]. split; [lia | exact F].
 Qed.
+
+(* ================================================================= sequential histories *)
+(* [seq_run] (the model the sequential correspondence check executes) is the machine with one client whose
+   operations run to completion one after the other *)
+Definition TInv (c : cfg) (s : shared) (th : thread) : Prop :=
+  SInv s /\ pc_ok s (t_pc th) /\ cnt s = Z.of_nat (length (smap s)) + contrib (t_pc th) /\
+  (capped c = true -> cnt s - over (t_pc th) <= c_cap c).
+Definition SeqInv (c : cfg) (s : shared) : Prop :=
+  SInv s /\ cnt s = Z.of_nat (length (smap s)) /\ (capped c = true -> cnt s <= c_cap c).
+
+Lemma run_thread_TInv c : c_variant c = Repaired ->
+  forall fuel s th, TInv c s th -> TInv c (fst (run_thread fuel c s th)) (snd (run_thread fuel c s th)).
+Proof.
+  intros Hv. induction fuel as [|f IH]; intros s th H; simpl; [exact H|].
+  destruct (finished th); [exact H|]. destruct (tstep c s th) as [s' th'] eqn:St.
+  apply IH. destruct H as [A [B [C D]]].
+  destruct (tstep_inv c s th 0 0 s' th' Hv A B (Z.le_refl 0)) as [I1 [I2 [I3 [I4 _]]]]; auto.
+  - lia.
+  - intros Hc. specialize (D Hc). lia.
+  - split; [exact I1|]. split; [exact I2|]. split; [lia|]. intros Hc; specialize (I4 Hc); lia.
+Qed.
+
+Lemma seq_op_inv c s slots o : c_variant c = Repaired -> SeqInv c s -> SeqInv c (fst (fst (seq_op c s slots o))).
+Proof.
+  intros Hv [A [B C]]. unfold seq_op.
+  set (th := {| t_pc := PIdle; t_prog := [o]; t_slots := slots; t_out := [] |}).
+  pose proof (run_thread_TInv c Hv seq_fuel s th) as T.
+  pose proof (run_thread_finishes c seq_fuel s th) as F.
+  destruct (run_thread seq_fuel c s th) as [s' th'] eqn:R. simpl in *.
+  specialize (F ltac:(unfold budget, seq_fuel; simpl; lia)).
+  destruct T as [T1 [T2 [T3 T4]]].
+  { split; [exact A|]. split; [exact I|]. simpl. split; [lia|]. intros Hc; specialize (C Hc); lia. }
+  destruct (finished_inv _ F) as [E _]. rewrite E in T3, T4. simpl in T3, T4.
+  split; [exact T1|]. split; [lia|]. intros Hc; specialize (T4 Hc); lia.
+Qed.
+
+Lemma seq_run_inv c : c_variant c = Repaired -> forall ops s slots, SeqInv c s -> SeqInv c (fst (seq_run c s slots ops)).
+Proof.
+  intros Hv. induction ops as [|o r IH]; intros s slots H; simpl; [exact H|].
+  pose proof (seq_op_inv c s slots o Hv H) as H1.
+  destruct (seq_op c s slots o) as [[s' sl'] res]. simpl in H1. apply IH. exact H1.
+Qed.
+
+Lemma SeqInv0 c : SeqInv c shared0.
+Proof. split; [exact SInv0|]. split; [reflexivity|]. simpl. unfold capped. lia. Qed.
+
+Lemma seq_props c ops : c_variant c = Repaired ->
+  let s := fst (seq_run c shared0 [] ops) in
+  (0 < c_cap c -> Z.of_nat (length (snapshot s)) <= c_cap c) /\
+  cnt s = Z.of_nat (length (smap s)) /\
+  (forall id, (id < length (hs s))%nat -> orphan s id = false).
+Proof.
+  intros Hv s. destruct (seq_run_inv c Hv ops shared0 [] (SeqInv0 c)) as [HS [HC HK]]. fold s in HS, HC, HK.
+  assert (L : length (snapshot s) = length (smap s)).
+  { unfold snapshot. destruct HS as [A _ _ _ _]. revert A. generalize (smap s) as m.
+    induction m as [|[k v] m IH]; intros A; simpl; [reflexivity|].
+    destruct (A k v (or_introl eq_refl)) as [h [H1 _]]. unfold get_handle. simpl. rewrite H1. simpl.
+    f_equal. apply IH. intros k' v' Hin. apply A. right; exact Hin. }
+  split; [|split].
+  - intros Hc. rewrite L. assert (capped c = true) as Hc' by (unfold capped; lia). specialize (HK Hc'). lia.
+  - exact HC.
+  - intros id Hid. unfold orphan, get_handle. destruct (nth_error (hs s) id) as [h|] eqn:G.
+    + destruct (h_retired h) eqn:R; [reflexivity|]. simpl.
+      rewrite (proj2 (in_map_ids _ _) (si_noorph _ HS _ _ G R)). reflexivity.
+    + apply nth_error_None in G. lia.
+Qed.
+
+Lemma run_thread_cons c : c_kind c <> KGauge -> forall fuel s th,
+  (total (c_kind c) (fst (run_thread fuel c s th)) + rem (c_kind c) (snd (run_thread fuel c s th))) mod M64 =
+  (total (c_kind c) s + rem (c_kind c) th) mod M64.
+Proof.
+  intros Hk. induction fuel as [|f IH]; intros s th; simpl; [reflexivity|].
+  destruct (finished th); [reflexivity|]. destruct (tstep c s th) as [s' th'] eqn:St.
+  rewrite IH. apply (tstep_cons c s th s' th' Hk St).
+Qed.
+
+Lemma seq_run_cons c : c_kind c <> KGauge -> forall ops s slots,
+  total (c_kind c) (fst (seq_run c s slots ops)) mod M64 = (total (c_kind c) s + prog_weight (c_kind c) ops) mod M64.
+Proof.
+  intros Hk. induction ops as [|o r IH]; intros s slots; simpl.
+  - f_equal. lia.
+  - unfold seq_op.
+    set (th := {| t_pc := PIdle; t_prog := [o]; t_slots := slots; t_out := [] |}).
+    pose proof (run_thread_cons c Hk seq_fuel s th) as C.
+    pose proof (run_thread_finishes c seq_fuel s th) as F.
+    destruct (run_thread seq_fuel c s th) as [s' th'] eqn:R. simpl in *.
+    specialize (F ltac:(unfold budget, seq_fuel; simpl; lia)).
+    destruct (finished_inv _ F) as [E1 E2]. unfold rem in C. rewrite E1, E2 in C. simpl in C.
+    rewrite IH.
+    assert (C2 : total (c_kind c) s' mod M64 = (total (c_kind c) s + op_weight (c_kind c) o) mod M64).
+    { etransitivity; [|etransitivity; [exact C|]]; f_equal; lia. }
+    rewrite (mod_congr _ _ (prog_weight (c_kind c) r) C2). f_equal. ring.
+Qed.
